@@ -19,4 +19,4 @@ echo "== patched tree: crate suite"
 rm -f "$DEST"
 cargo test -p "$CRATE" --offline -j 8 --no-fail-fast 2>&1 | grep -E '^test result: F|^test .* FAILED|^error' | sort | uniq -c | head -20
 echo "== done"
-git checkout -q -- . && git clean -fdq -e target
+git checkout -q -- . && git clean -fdq -e target; rm -rf "$CARGO_TARGET_DIR"
